@@ -44,11 +44,11 @@ Fixpoint nodup_b (l : list hkey) : bool :=
   match l with [] => true | k :: l' => negb (mem_key k l') && nodup_b l' end.
 
 (* keys whose expression matches slot (o, fo) with a notifying node, in heap h *)
-Definition expect_keys (rs : list reg) (h : heap) (o : oid) (fo : fname) : list hkey :=
-  nodup_keys (map fst (filter (fun r : reg => matched h (snd r) (snd (fst r)) o fo) rs)).
+Definition expect_keys (rs : list reg) (t : traits) (h : heap) (o : oid) (fo : fname) : list hkey :=
+  nodup_keys (map fst (filter (fun r : reg => matched t h (snd r) (snd (fst r)) o fo) rs)).
 (* keys whose expression walks through the slot at all *)
-Definition visiting_keys (rs : list reg) (h : heap) (o : oid) (fo : fname) : list hkey :=
-  map fst (filter (fun r : reg => visits h (snd r) (snd (fst r)) o fo) rs).
+Definition visiting_keys (rs : list reg) (t : traits) (h : heap) (o : oid) (fo : fname) : list hkey :=
+  map fst (filter (fun r : reg => visits t h (snd r) (snd (fst r)) o fo) rs).
 
 Inductive chg := NoChange | Exact | AtMost.
 
@@ -57,10 +57,12 @@ Definition op_slot (o : op) : option (oid * fname) :=
   | Observe _ _ _ | Unobserve _ _ _ | ObserveAll _ _ _ | UnobserveAll _ _ _ => None
   | SetRef x f _ | SetCont x f _ _ | Touch x f | Splice x f _ _ _ => Some (x, f)
   | Probe x => Some (x, 0)
+  | AddTrait x _ => Some (x, TA)
   end.
 
-Definition classify (hb ha : heap) (o : op) : chg :=
+Definition classify (t : traits) (hb ha : heap) (o : op) : chg :=
   match o with
+  | AddTrait x f => if t x f then NoChange else Exact
   | Observe _ _ _ | Unobserve _ _ _ | ObserveAll _ _ _ | UnobserveAll _ _ _ | Touch _ _ => NoChange
   | SetRef x f _ => if list_eqb (hb x f) (ha x f) then NoChange else Exact
   | SetCont x f _ de =>
@@ -83,20 +85,20 @@ Definition call_ok (hb ha : heap) (o : op) (x : oid) (f : fname) (c : call) : bo
   Nat.eqb obj x && Nat.eqb name f &&
   match o with
   | Splice _ _ _ _ _ => perm_eqb (ha x f ++ removed) (hb x f ++ added)   (* a faithful delta *)
-  | Probe _ => true                                                      (* integer values are not links *)
+  | Probe _ | AddTrait _ _ => true                                       (* integer / name values are not links *)
   | _ => perm_eqb removed (hb x f) && perm_eqb added (ha x f)            (* old and new value *)
   end.
 
-Definition law_step (hb : heap) (rs : list reg) (o : op) (ob : obs) : list Z :=
+Definition law_step (t : traits) (hb : heap) (rs : list reg) (o : op) (ob : obs) : list Z :=
   let ha := apply_delta hb (ob_delta ob) in
   let keys := map call_key (ob_calls ob) in
   match op_slot o with
   | None => chk 7 (is_nil keys)
   | Some (x, f) =>
-      let exp := expect_keys rs hb x f in
-      let vis := visiting_keys rs hb x f in
+      let exp := expect_keys rs t hb x f in
+      let vis := visiting_keys rs t hb x f in
       let bad := filter (fun k => negb (mem_key k exp)) keys in
-      let c := classify hb ha o in
+      let c := classify t hb ha o in
       chk 1 (match c with Exact => forallb (fun k => mem_key k keys) exp | _ => true end)
       ++ chk 2 (forallb (fun k => mem_key k vis) bad)
       ++ chk 3 (nodup_b keys)
@@ -115,10 +117,16 @@ Definition law_regs (rs : list reg) (o : op) (ob : obs) : list reg :=
   | _, _ => rs
   end.
 
-Fixpoint law_hist (i : Z) (h : heap) (rs : list reg) (hist : list (op * obs)) : list Z :=
+Definition law_traits (t : traits) (o : op) (ob : obs) : traits :=
+  match o, ob_out ob with
+  | AddTrait x f, Ok => if t x f then t else add_trait t x f
+  | _, _ => t
+  end.
+
+Fixpoint law_hist (i : Z) (t : traits) (h : heap) (rs : list reg) (hist : list (op * obs)) : list Z :=
   match hist with
   | [] => []
   | (o, ob) :: r =>
-      map (fun c => (100 * i + c)%Z) (law_step h rs o ob)
-      ++ law_hist (i + 1)%Z (apply_delta h (ob_delta ob)) (law_regs rs o ob) r
+      map (fun c => (100 * i + c)%Z) (law_step t h rs o ob)
+      ++ law_hist (i + 1)%Z (law_traits t o ob) (apply_delta h (ob_delta ob)) (law_regs rs o ob) r
   end.
